@@ -1362,6 +1362,11 @@ class Engine:
 
     def assign_target(self, t, val, st):
         if isinstance(t, ast.Name):
+            lk = self.c.get("local_kinds", {}).get(t.id) if isinstance(getattr(self, "c", None), dict) else None
+            if lk and isinstance(val, VSeq) and lk.startswith("seq[") and val.ek != lk[4:-1] \
+                    and z3.is_int_value(val.ln) and val.ln.as_long() == 0:
+                # an EMPTY list literal bound to a local whose element kind the contract declares
+                val = self.seq_from_items([], st, ek=lk[4:-1])
             st.env[t.id] = val
             return
         if isinstance(t, (ast.Tuple, ast.List)):
